@@ -360,47 +360,59 @@ func c19Special(c *fw.Ctx) {
 			c19Judge(c, es, "large-part")
 		}
 	}
-	// same backing array, same length, different archives
+	// same backing array, same length, different archives: random packages are
+	// grouped by total length; each group is detected one after the other in ONE
+	// buffer (same &buf[0], same len) and compared with detection in a fresh slice
 	buf := make([]byte, 1<<16)
-	pairs := [][2]string{{"word/document.xml", "ward/document.xml"}, {"xl/workbook.xml", "xx/workbook.xml"}, {"ppt/slides/s1.xml", "pqt/slides/s1.xml"}, {"META-INF/MANIFEST.MF", "META-INF/MANIFEST.MG"}, {"classes.dex", "classes.dey"}}
-	for rep := 0; rep < 40; rep++ {
-		for _, pr := range pairs {
-			mode := r.Intn(3)
-			mkA := func(name string) []byte {
-				var es []c19Entry
-				if !strings.HasPrefix(name, "META") && !strings.HasPrefix(name, "classes") {
-					es = append(es, c19Entry{Name: "[Content_Types].xml", Mode: mode, Body: []byte("<Types/>")}, c19Entry{Name: "_rels/.rels", Mode: mode, Body: []byte("<r/>")})
+	groups := map[int][][]byte{}
+	pool := []string{"word/document.xml", "word/a.xml", "xl/workbook.xml", "xl/s.xml", "ppt/presentation.xml", "docs/readme.txt", "documents/r1.txt", "ward/a1.xml", "docProps/app.xml", "docProps/core.xml", "_rels/.rels", "customXml/item1.xml", "a", "bb", "ccc", "dddd/eeee.txt", "META-INF/MANIFEST.MF", "classes.dex", "x/y/z.bin"}
+	for i := 0; i < 6000; i++ {
+		var es []c19Entry
+		if r.Intn(4) != 0 {
+			es = append(es, c19Entry{Name: "[Content_Types].xml", Mode: r.Intn(3), Body: []byte("<Types/>")})
+		}
+		for k := 1 + r.Intn(4); k > 0; k-- {
+			es = append(es, c19Entry{Name: pool[r.Intn(len(pool))], Mode: r.Intn(3), Body: []byte("<x/>")[:r.Intn(5)]})
+		}
+		d, err := c19Build(es)
+		if err != nil || len(d) > len(buf) || bytes.Count(d, []byte("PK\x03\x04")) != len(es) {
+			continue
+		}
+		if len(groups[len(d)]) < 8 {
+			groups[len(d)] = append(groups[len(d)], d)
+		}
+	}
+	for n, g := range groups {
+		if len(g) < 2 {
+			continue
+		}
+		fresh := make([]string, len(g))
+		for i, d := range g {
+			fresh[i] = lib.ChainOf(lib.Detect(append([]byte(nil), d...), 0)).String()
+		}
+		distinctVerdicts := map[string]bool{}
+		for _, f := range fresh {
+			distinctVerdicts[f] = true
+		}
+		for pass := 0; pass < 2; pass++ {
+			for i := range g {
+				j := i
+				if pass == 1 {
+					j = len(g) - 1 - i
 				}
-				es = append(es, c19Entry{Name: name, Mode: mode, Body: []byte("<doc/>")}, c19Entry{Name: "other.txt", Mode: mode, Body: []byte("o")})
-				d, _ := c19Build(es)
-				return d
-			}
-			a, bb := mkA(pr[0]), mkA(pr[1])
-			if len(a) != len(bb) || len(a) > len(buf) {
-				continue
-			}
-			order := [][]byte{a, bb, a}
-			if rep%2 == 1 {
-				order = [][]byte{bb, a, bb}
-			}
-			var got []string
-			for _, d := range order {
-				n := copy(buf, d)
-				got = append(got, lib.ChainOf(lib.Detect(buf[:n], 0)).String())
-			}
-			fresh := map[string]string{}
-			for _, d := range [][]byte{a, bb} {
-				fresh[string(d)] = lib.ChainOf(lib.Detect(append([]byte(nil), d...), 0)).String()
-			}
-			c.Eval(5)
-			c.Count("buffer_reuse_sequences", 1)
-			for i, d := range order {
-				if got[i] != fresh[string(d)] {
-					c.Violate("zip-verdict-depends-on-buffer-history", fw.InputKey(d, 0, "Detect/reused-buffer"), fmt.Sprintf("archive with entry %q gives %s when it is detected in a buffer that held an equal-length archive before, %s in a fresh slice", pr[i%2], got[i], fresh[string(d)]), c19Payload{Note: "buffer-reuse"})
-					break
+				copy(buf, g[j])
+				got := lib.ChainOf(lib.Detect(buf[:n], 0)).String()
+				c.Eval(1)
+				if got != fresh[j] {
+					c.Violate("zip-verdict-depends-on-buffer-history", fw.InputKey(g[j], 0, "Detect/reused-buffer"), fmt.Sprintf("a %d-byte archive gives %s when it is detected in a buffer that held another archive of the same length before, and %s in a fresh slice", n, got, fresh[j]), c19Payload{Note: "buffer-reuse"})
+					return
 				}
 			}
-			c.Distinct("reuse|" + pr[0])
+		}
+		c.Count("buffer_reuse_groups", 1)
+		if len(distinctVerdicts) > 1 {
+			c.Count("buffer_reuse_groups_with_different_verdicts", 1)
+			c.Distinct(fmt.Sprintf("reuse|%d", n))
 		}
 	}
 }
